@@ -2,6 +2,8 @@
 """C14 -- Reverse complement of a circular record stays circular and loses nothing."""
 from __future__ import annotations
 
+import copy
+
 from pyvc import term as tm
 from pyvc.term import INT, BOOL, STR
 from pyvc.solve import Obligation
@@ -154,6 +156,38 @@ def bounded(ctx):
                                      case=dict(seq=bs, features=feats, k=k), observed=pb[:5]))
                 elif len(samples) < 2 and feats and k:
                     samples.append(dict(seq=bs, rc=str(r.seq), features=[str(f.location) for f in r.features]))
+    # the record re-annotated in place between two uses (a feature re-located, same number of features): reverse complement
+    # and rotation are functions of the record as it is now
+    from Bio.SeqFeature import FeatureLocation
+    for n in range(3, maxn + 1):
+        s = letters[:n]
+        for ti, feats in enumerate(bc.feature_tables(n, small=True)):
+            if not feats:
+                continue
+            evals += 1
+            rec = CircularRecord(Seq(s), id="rid", name="rn", features=bc.build_features(feats),
+                                 annotations={"topology": "circular", "molecule_type": "DNA"})
+            try:
+                rec >> 1, rec << 1, rec.reverse_complement()
+                rec.features[0].location = FeatureLocation(1, 3, strand=1)
+                rec.features[0].qualifiers["label"] = ["re-located"]
+                a_ = (rec >> 1).reverse_complement()
+                b_ = rec.reverse_complement() << 1
+                fresh = CircularRecord(Seq(s), id="rid", name="rn", features=[copy.deepcopy(f) for f in rec.features],
+                                       annotations={"topology": "circular", "molecule_type": "DNA"})
+                c_ = (fresh >> 1).reverse_complement()
+                sp = lambda r_: sorted((f["id"], f["type"], f["reads"], f["quals"]) for f in bc.observe(r_)["features"] if f["den"] is not None)
+                pb = []
+                if sp(a_) != sp(b_):
+                    pb.append("rc(r >> 1) and rc(r) << 1 disagree after the record was re-annotated: %r vs %r" % (sp(a_)[:1], sp(b_)[:1]))
+                if sp(a_) != sp(c_):
+                    pb.append("rc(r >> 1) of the re-annotated record differs from that of a fresh equal record: %r vs %r" % (sp(a_)[:1], sp(c_)[:1]))
+            except Exception as e:
+                pb = ["raised %r" % (e,)]
+            distinct.add(("edit", n, ti))
+            if pb:
+                viol.append(dict(name="reannotated_n%d_t%d" % (n, ti), what="%r with table %r, rotated, re-annotated in place: %s" % (s, feats, pb[0]),
+                                 case=dict(seq=s, features=feats), observed=pb))
     uniq = {}
     for v_ in viol:
         uniq.setdefault(v_["name"], v_)
